@@ -61,7 +61,7 @@ Proof. exact des3_roundtrip. Qed.
 Print Assumptions C05_des3_roundtrip.
 
 Theorem C05_rc4_roundtrip : forall key usage conf msg ct,
-  length conf = 8%nat ->
+  length conf = 8%nat -> length key = 16%nat ->
   encrypt_with 23 key usage conf msg = Ok ct -> decrypt 23 key usage ct = Ok msg.
 Proof. exact rc4_roundtrip. Qed.
 Print Assumptions C05_rc4_roundtrip.
